@@ -1540,3 +1540,56 @@ func checkPendingRecordBeforeBody(p *core.Prog, r *core.Result, rule string) {
 		r.Bad(rule, construct, p.InstrPos(m.Evaluate), "the body starts while the record of the last successful run is still on disk: a target re-executed because its generated file was missing (or because the build was forced) and interrupted inside its body is found up to date by the next build - record intact, inputs unchanged, half-written output present - and is never completed")
 	}
 }
+
+// checkModuleErrorsNotPickedAtRandom (R6.15): a load whose graph is cyclic fails with the cyclic-dependency error whatever
+// else went wrong. Project.load therefore does not return the error of the first failed module that a range over the
+// module table happens to meet (Go randomises map iteration: with an unrelated module that fails as well, most loads
+// report only that one); the errors of the failed modules are collected and returned together.
+func checkModuleErrorsNotPickedAtRandom(p *core.Prog, r *core.Result, rule string) {
+	load := need(p, r, rule, "", "Project", "load")
+	if load == nil {
+		return
+	}
+	n := 0
+	for fn := range staticClosure(p, load) {
+		if fn.Pkg != load.Pkg {
+			continue
+		}
+		for _, ret := range core.ReturnsOf(fn) {
+			vals := core.RetVals(ret)
+			if len(vals) == 0 {
+				continue
+			}
+			v := core.Unwrap(vals[len(vals)-1])
+			if !core.LoadOfField(v, pkgRoot, "module", "err") {
+				continue
+			}
+			n++
+			// is the module an element of a range over the module table?
+			fromRange := core.DependsOn(v, core.SliceOpts{}, func(x ssa.Value) bool {
+				nx, ok := x.(*ssa.Next)
+				if !ok {
+					return false
+				}
+				rg, ok := nx.Iter.(*ssa.Range)
+				return ok && core.LoadOfField(rg.X, pkgRoot, "Project", "modules")
+			})
+			construct := fmt.Sprintf("%s#returns-module-error-%d", fname(fn), n)
+			if fromRange {
+				r.Bad(rule, construct, p.InstrPos(ret), "the load returns the error of whichever failed module the iteration over the module table meets first: map iteration is random, so a cyclic load graph next to an unrelated module that fails is reported, in most runs, without any cyclic-dependency error")
+			} else {
+				r.OK(rule, construct, p.InstrPos(ret), "the returned module error is not picked by map iteration order")
+			}
+		}
+	}
+	// the errors are read somewhere in the load (collected)
+	reads := 0
+	for fn := range staticClosure(p, load) {
+		core.Instrs(fn, func(in ssa.Instruction) {
+			if u, ok := in.(*ssa.UnOp); ok && core.LoadOfField(u, pkgRoot, "module", "err") && fn.Pkg == load.Pkg && (fn == load) {
+				reads++
+			}
+		})
+	}
+	r.Floor(rule, reads, 1, "reads of module.err in Project.load")
+}
